@@ -14,6 +14,7 @@ ones are `*_partial` under the negation of the decidable class predicate.
 import Std.Tactic.BVDecide
 import Emu8086.Model.Alu
 import Emu8086.Spec.Arith
+import Emu8086.KnownFindings
 
 namespace Emu8086.Props.C01
 open Emu8086 Emu8086.Spec
@@ -58,14 +59,14 @@ theorem wordDec_eq (s : AluState) (a : BitVec 16) :
 
 /-! ### INC — open finding KF-INC-CF -/
 /-- the inputs on which the implementation's INC is wrong: the carry of `a+1` differs from CF -/
-def KF_inc {w} (fl : BitVec 16) (a : BitVec w) : Bool := (a == BitVec.allOnes w) != cfOf fl
+abbrev KF_inc {w} (fl : BitVec 16) (a : BitVec w) : Bool := KF.inc fl a
 
 theorem byteInc_partial (s : AluState) (a : BitVec 8) (h : KF_inc s.flag a = false) :
     byteInc s a = some ({ s with flag := (INC s.flag a).2 }, (INC s.flag a).1) := by
-  revert h; simp only [KF_inc]; alu_unfold; bv_decide
+  revert h; simp only [KF_inc, KF.inc]; alu_unfold; bv_decide
 theorem wordInc_partial (s : AluState) (a : BitVec 16) (h : KF_inc s.flag a = false) :
     wordInc s a = some ({ s with flag := (INC s.flag a).2 }, (INC s.flag a).1) := by
-  revert h; simp only [KF_inc]; alu_unfold; bv_decide
+  revert h; simp only [KF_inc, KF.inc]; alu_unfold; bv_decide
 /-- everything except CF is right for every input -/
 theorem byteInc_except_cf (s : AluState) (a : BitVec 8) :
     ∃ fl', byteInc s a = some ({ s with flag := fl' }, (INC s.flag a).1) ∧
@@ -89,14 +90,14 @@ example : KF_inc 0xF000#16 0x12#8 = false := by decide   -- the partial theorem'
 
 /-! ### NEG — open finding KF-NEG0-SF -/
 /-- the inputs on which NEG is wrong: operand 0 with SF set on entry -/
-def KF_neg {w} (fl : BitVec 16) (a : BitVec w) : Bool := (a == 0#w) && fl.getLsbD 7
+abbrev KF_neg {w} (fl : BitVec 16) (a : BitVec w) : Bool := KF.neg fl a
 
 theorem byteNeg_partial (s : AluState) (a : BitVec 8) (h : KF_neg s.flag a = false) :
     byteNeg s a = some ({ s with flag := (NEG s.flag a).2 }, (NEG s.flag a).1) := by
-  revert h; simp only [KF_neg]; alu_unfold; bv_decide
+  revert h; simp only [KF_neg, KF.neg]; alu_unfold; bv_decide
 theorem wordNeg_partial (s : AluState) (a : BitVec 16) (h : KF_neg s.flag a = false) :
     wordNeg s a = some ({ s with flag := (NEG s.flag a).2 }, (NEG s.flag a).1) := by
-  revert h; simp only [KF_neg]; alu_unfold; bv_decide
+  revert h; simp only [KF_neg, KF.neg]; alu_unfold; bv_decide
 theorem byteNeg_full_fails :
     byteNeg ⟨0xF080#16, 0#16, 0#16⟩ 0#8 ≠
       some ({ (⟨0xF080#16, 0#16, 0#16⟩ : AluState) with flag := (NEG 0xF080#16 0#8).2 }, (NEG 0xF080#16 0#8).1) := by
